@@ -148,12 +148,52 @@ func ruleK10All(r *Report, p *Program) {
 		if fn.Object() == nil || (!fn.Object().Exported() && fn.Signature.Recv() == nil) {
 			continue
 		}
-		usesAtoi := reachesCall(fn, func(n string) bool { return n == "strconv.Atoi" }, map[*ssa.Function]bool{})
+		// the parsers of HH:mm: entry points that build an HHmm value from parsed components, whatever they parse
+		// with (regexp groups and Atoi, strings.Cut and digit arithmetic, ...), directly or through another
+		// constructor of the package (which is then walked in line)
+		buildsHHmm := reachesInstr(fn, tp, func(in ssa.Instruction) bool {
+			if al, ok := in.(*ssa.Alloc); ok {
+				return strings.HasSuffix(typeName(al.Type().Underlying().(*types.Pointer).Elem()), "types.HHmm")
+			}
+			if st, ok := in.(*ssa.Store); ok {
+				if strings.HasSuffix(typeName(st.Val.Type()), "types.HHmm") {
+					return true
+				}
+				if fa, ok := st.Addr.(*ssa.FieldAddr); ok { // *h = HHmm{...} compiled to one store per field
+					if pt, ok := fa.X.Type().Underlying().(*types.Pointer); ok {
+						return strings.HasSuffix(typeName(pt.Elem()), "types.HHmm")
+					}
+				}
+			}
+			return false
+		}, map[*ssa.Function]bool{})
+		returnsHHmm := func(f *ssa.Function) bool {
+			rs := f.Signature.Results()
+			for i := 0; i < rs.Len(); i++ {
+				tn := typeName(rs.At(i).Type())
+				if strings.HasSuffix(tn, "types.HHmm") {
+					return true
+				}
+			}
+			return false
+		}
 		helpers := inlineHelpers([]*ssa.Package{tp}, func(f *ssa.Function) bool {
-			return f.Object() != nil && (f.Object().Exported() || f.Signature.Recv() != nil)
+			return f.Object() != nil && f.Object().Exported() && !returnsHHmm(f)
 		})
 		name := calleeName(fn)
-		if usesAtoi {
+		// a parser takes text or bytes; constructors from numbers or instants (NewHHmm, HHmmFromTime) have no format
+		takesText := false
+		for _, prm := range fn.Params {
+			if isStringType(prm.Type()) {
+				takesText = true
+			}
+			if sl, ok := prm.Type().Underlying().(*types.Slice); ok {
+				if b, ok := sl.Elem().Underlying().(*types.Basic); ok && b.Kind() == types.Uint8 {
+					takesText = true
+				}
+			}
+		}
+		if buildsHHmm && takesText {
 			paths := walkSimple(p, fn, nil, helpers)
 			bad := ""
 			n := 0
@@ -172,10 +212,20 @@ func ruleK10All(r *Report, p *Program) {
 						continue
 					}
 					n++
-					if !(strings.HasSuffix(h.String(), "[1])#0") && strings.HasSuffix(m.String(), "[2])#0")) {
-						bad = "the two components are not taken from capture groups 1 and 2 in that order: " + cut(h.String(), 40) + " / " + cut(m.String(), 40)
+					if ho, mo := sourceOrder(h), sourceOrder(m); ho < 0 || mo < 0 || ho >= mo {
+						bad = "the hours are not taken from the part of the text that precedes the minutes: " + cut(h.String(), 60) + " / " + cut(m.String(), 60)
 					}
-					hr, mr := regionOrFull(pa, h), regionOrFull(pa, m)
+					// components computed from characters: every character used must have been checked to be a digit
+					for _, comp := range []*Term{h, m} {
+						visitTerm(comp, map[*Term]bool{}, func(x *Term) {
+							if (x.Op == "index" || x.Op == "lookup") && x.Typ != nil && isIntType(x.Typ) && len(x.Args) == 2 && (isStringType(x.Args[0].Typ) || isByteSlice(x.Args[0].Typ)) {
+								if cr := intervalOf(pa, x, 0); !cr.Intersect(complement(IntervalSet{{'0', '9'}})).Empty() {
+									bad = "the character " + cut(x.String(), 40) + " enters the value without being restricted to '0'..'9' (accepts " + cr.Intersect(complement(IntervalSet{{'0', '9'}})).String() + ")"
+								}
+							}
+						})
+					}
+					hr, mr := intervalOf(pa, h, 0), intervalOf(pa, m, 0)
 					if !hr.Intersect(complement(IntervalSet{{0, 24}})).Empty() {
 						bad = "hours may be " + hr.Intersect(complement(IntervalSet{{0, 24}})).String()
 					}
@@ -256,17 +306,41 @@ func RuleW26(r *Report, p *Program) {
 		r.Fatal("W26", "api", err.Error())
 		return
 	}
-	// the predicate: the unexported bool function PutCard calls with (card number, formats)
+	// the predicate: the unexported bool function with (card number, list of formats) parameters that PutCard
+	// reaches through in-package static calls (directly, or through a validation helper split off PutCard)
 	put := a.Ops["PutCard"]
 	var pred *ssa.Function
+	isFormatPred := func(f *ssa.Function) bool {
+		if f == nil || f.Blocks == nil || pkgOf(f) != p.SSAPkg("uhppote") || f.Object() == nil || f.Object().Exported() {
+			return false
+		}
+		if f.Signature.Results().Len() != 1 || !isBoolType(f.Signature.Results().At(0).Type()) || len(f.Params) != 2 {
+			return false
+		}
+		sl, ok := f.Params[1].Type().Underlying().(*types.Slice)
+		if !ok || !isIntType(f.Params[0].Type()) {
+			return false
+		}
+		n, ok := types.Unalias(sl.Elem()).(*types.Named)
+		return ok && n.Obj().Pkg() != nil && strings.HasSuffix(n.Obj().Pkg().Path(), "/types") && isIntType(n)
+	}
 	if put != nil {
-		for _, b := range put.Blocks {
-			for _, in := range b.Instrs {
-				if c, ok := in.(ssa.CallInstruction); ok {
-					f := c.Common().StaticCallee()
-					if f != nil && f.Pkg == p.SSAPkg("uhppote") && f.Object() != nil && !f.Object().Exported() && f.Signature.Results().Len() == 1 && isBoolType(f.Signature.Results().At(0).Type()) {
-						pred = f
-					}
+		seen := map[*ssa.Function]bool{}
+		queue := []*ssa.Function{put}
+		for len(queue) > 0 && pred == nil {
+			f := queue[0]
+			queue = queue[1:]
+			if seen[f] {
+				continue
+			}
+			seen[f] = true
+			for _, g := range staticCallees(f) {
+				if isFormatPred(g) {
+					pred = g
+					break
+				}
+				if pkgOf(g) == p.SSAPkg("uhppote") && g.Blocks != nil && a.Senders[g] == "" {
+					queue = append(queue, g)
 				}
 			}
 		}
